@@ -676,6 +676,6 @@ META = {
             "promotion, mixed term kinds and empty groups: DISTINCT and projection as multisets, ORDER BY as a permutation in which no later row precedes an "
             "earlier one under the pairs SPARQL orders, LIMIT/OFFSET as the slice of the ordered sequence, GROUP BY with COUNT/SUM/AVG/MIN/MAX/SAMPLE/"
             "GROUP_CONCAT (DISTINCT, separator, inside expressions, HAVING, implicit and empty groups) against the values section 18.5.1 defines.",
-    "note": "Small scope: 4 patterns x (8 hand-picked graphs + all graphs of <= 2 (quick) / 3 (thorough) triples over a 28-triple universe); orderings the Recommendation leaves open are not constrained; numeric results compared by datatype and value.",
+    "note": "Small scope: 4 patterns x (8 hand-picked graphs + all graphs of <= 2 (quick) / 3 (thorough) triples over a 28-triple universe); orderings the Recommendation leaves open are not constrained; numeric results compared by datatype and value. 22 aggregates incl. COUNT(DISTINCT *) and SUM/AVG/MIN/MAX over a partly unbound variable.",
     "technique": "exhaustive enumeration of modifier/aggregate combinations against a reference implementation of SPARQL 18.5",
 }
